@@ -99,6 +99,7 @@ type Profile struct {
 	AttrNoise    bool
 	RelURLs      bool // all reference forms (otherwise root-relative only)
 	MediaInText  bool // media inside paragraphs / list items
+	Punct        bool // attach / detach punctuation around words
 	ShortBias    int  // per-mille of short paragraphs
 	MinBlocks    int
 	MaxBlocks    int
@@ -172,6 +173,26 @@ func (g *ArtGen) toks(n int) string {
 	parts := make([]string, n)
 	for i := range parts {
 		parts[i] = g.tokK(k, "")
+		if g.P.Punct {
+			switch g.r.Intn(12) {
+			case 0:
+				parts[i] += ","
+			case 1:
+				parts[i] += " ,"
+			case 2:
+				parts[i] += "."
+			case 3:
+				parts[i] += " !"
+			case 4:
+				parts[i] = "( " + parts[i] + " )"
+			case 5:
+				parts[i] = "(" + parts[i] + ")"
+			case 6:
+				parts[i] += " ; -"
+			case 7:
+				parts[i] += " ?"
+			}
+		}
 	}
 	return strings.Join(parts, " ")
 }
@@ -228,7 +249,9 @@ func (g *ArtGen) ref(carrier, attr, where, ext string, forms []string) string {
 	g.nref++
 	id := fmt.Sprintf("u%dz", g.nref)
 	form := "root"
-	if g.P.RelURLs {
+	if len(forms) == 1 {
+		form = forms[0]
+	} else if g.P.RelURLs {
 		form = forms[g.r.Intn(len(forms))]
 	}
 	origin, dir, path := splitPage(g.P.PageURL)
@@ -250,7 +273,7 @@ func (g *ArtGen) ref(carrier, attr, where, ext string, forms []string) string {
 		exp = origin + raw
 	case "scheme":
 		raw = "//cdn.example.net/s/" + id + ext
-		exp = "http:" + raw
+		exp = origin[:strings.Index(origin, ":")+1] + raw
 	case "query":
 		raw = "?q=" + id
 		exp = origin + path + raw
@@ -276,7 +299,7 @@ func (g *ArtGen) ref(carrier, attr, where, ext string, forms []string) string {
 	return raw
 }
 
-var linkForms = []string{"path", "dot", "dotdot", "root", "scheme", "query", "abs", "frag", "data", "bad", "path", "root"}
+var linkForms = []string{"path", "dot", "dotdot", "root", "scheme", "query", "abs", "frag", "data", "bad", "js", "path", "root"}
 var mediaForms = []string{"path", "dot", "dotdot", "root", "scheme", "abs", "path", "root", "query"}
 var srcsetForms = []string{"path", "dot", "dotdot", "root", "scheme", "abs"}
 
@@ -338,10 +361,10 @@ func (g *ArtGen) inlineRun(n int) string {
 			shape = append(shape, "t", "br")
 		case c == 4 && g.P.JSAnchors:
 			if g.r.Intn(2) == 0 {
-				g.w(` <a href="javascript:void(0)">` + g.toks(k) + `</a> `)
+				g.w(` <a href="` + g.ref("a", "href", g.where(), "", []string{"js"}) + `">` + g.toks(k) + `</a> `)
 				shape = append(shape, "j1")
 			} else {
-				g.w(` <a href="javascript:void(0)"><b>` + g.toks(k) + `</b> ` + g.toks(1) + `</a> `)
+				g.w(` <a href="` + g.ref("a", "href", g.where(), "", []string{"js"}) + `"><b>` + g.toks(k) + `</b> ` + g.toks(1) + `</a> `)
 				shape = append(shape, "jn")
 			}
 		case c == 5 && g.P.Hidden && g.P.InlineAttrs:
@@ -543,7 +566,7 @@ func (g *ArtGen) figure() {
 // ---------------------------------------------------------------------------
 // hidden and skipped carriers (C04)
 
-var hiddenBlockKinds = []string{"script", "style", "comment", "hidden-attr", "display-none", "vis-hidden", "vis-collapse", "aria-hidden", "display-none-nested"}
+var hiddenBlockKinds = []string{"script", "style", "comment", "hidden-attr", "display-none", "vis-hidden", "vis-collapse", "aria-hidden", "display-none-nested", "figcaption-hidden"}
 var skippedKinds = []string{"form", "input", "button", "select", "textarea", "noscript", "svg", "object", "embed", "applet", "iframe"}
 
 func (g *ArtGen) hiddenCarrier(kind string) {
@@ -566,6 +589,8 @@ func (g *ArtGen) hiddenCarrier(kind string) {
 		g.w(`<div style="color:red; visibility: collapse">` + t(3) + `</div>`)
 	case "aria-hidden":
 		g.w(`<div aria-hidden="true">` + t(3) + `</div>`)
+	case "figcaption-hidden":
+		g.w(`<figcaption hidden>` + t(2) + ` <a href="/hid/cap.html">` + t(1) + `</a></figcaption>`)
 	case "display-none-nested":
 		g.w(`<div style="display: none;"><p>` + t(20) + `</p><ul><li>` + t(3) + `</li></ul></div>`)
 	}
